@@ -671,6 +671,30 @@ func realBinary(dir string, c c07Case, want []byte, pkg string) string {
 	if !bytes.Equal(got, want) {
 		return "the file written by the generator binary differs from generateTemplate's output for the same text"
 	}
+	// regeneration (what go generate does after the description was edited): the directory already holds an
+	// output file for this package - a longer one, a shorter one, an identical one - and an unrelated file;
+	// the result must be the same bytes as into an empty directory, and the unrelated file stays as it is
+	other := filepath.Join(dir, "zz_other.go")
+	os.WriteFile(other, []byte("package other\n"), 0o644)
+	for _, old := range [][]byte{append(append([]byte(nil), want...), bytes.Repeat([]byte("\nfunc stale( {{{\n"), 300)...), want[:len(want)/2], want, {}} {
+		os.WriteFile(filepath.Join(dir, files[0]), old, 0o644)
+		cmd := exec.Command(os.Getenv("VX_HG"), src)
+		cmd.Env = os.Environ()
+		if outb, err := cmd.CombinedOutput(); err != nil {
+			return fmt.Sprintf("regenerating over an existing %d-byte output file: the generator binary exited with %v: %s", len(old), err, short(string(outb)))
+		}
+		got, _ := os.ReadFile(filepath.Join(dir, files[0]))
+		if !bytes.Equal(got, want) {
+			return fmt.Sprintf("regenerating over an existing %d-byte output file leaves %d bytes that differ from the %d bytes generated into an empty directory (same input, different bytes)", len(old), len(got), len(want))
+		}
+	}
+	if b, _ := os.ReadFile(other); string(b) != "package other\n" {
+		return "the generator binary changed a file that is not its output"
+	}
+	ents, _ = os.ReadDir(dir)
+	if len(ents) != 3 {
+		return fmt.Sprintf("after regenerating, the directory holds %d entries, want in.varlink, the output and the unrelated file", len(ents))
+	}
 	return ""
 }
 
